@@ -268,7 +268,7 @@ def main(ck):
       lib.warnings()
     lib.mjv_freeScene(big)
 
-  ck.run_hypothesis(test, st.tuples(model_strategy(), mg.state_seed(), st.integers(0, 2 ** 31 - 1)), ck.budget(30, 500),
+  ck.run_hypothesis(test, st.tuples(model_strategy(), mg.state_seed(), st.integers(0, 2 ** 31 - 1)), ck.budget(30, 300),
                     name='scene', shrink=False)
   ck.extra['stats'] = stats
 
